@@ -74,7 +74,7 @@ Definition op_ok (st : state) (o : op) : Prop :=
   | OSetCfg _ | OMintFt _ _ => True
   | OBurnTx u _ _ _ => u <> MOD
   | OJoinVerifier _ _ _ => True
-  | OUpsert _ _ _ _ p _ _ => v_upsert_raw v = false /\ p_lp p <> UKEX
+  | OUpsert _ _ _ _ p _ _ _ _ => v_upsert_raw v = false /\ p_lp p <> UKEX
   | KSwap u n _ _ _ => u <> MOD /\ launched st n
   | KRedeem u n _ _ fee => u <> MOD /\ 0 <= fee <= PREC /\ launched st n
   | KConvert u n n2 _ _ => u <> MOD /\ v_convert_stale v = false /\ launched st n /\ launched st n2
@@ -182,10 +182,11 @@ Proof.
   destruct (0 <? round_int m); [|inversion E1; subst; reflexivity]. now apply (send_other_den _ _ _ _ _ _ MOD E1).
 Qed.
 
-Lemma upsert_inv st n total status ctime p ptime liq st' :
-  I st -> v_upsert_raw v = false -> p_lp p <> UKEX -> upsert v st n total status ctime p ptime liq = Ok st' -> I st'.
+Lemma upsert_inv st n total status ctime p ptime liq allowed fa st' :
+  I st -> v_upsert_raw v = false -> p_lp p <> UKEX -> upsert v st n total status ctime p ptime liq allowed fa = Ok st' -> I st'.
 Proof.
   intros HI Hv Hl H. unfold upsert in H. destruct (get_dapp n st) as [d|] eqn:G; [|discriminate]. apply get_find in G. destruct G as [F Hn].
+  destruct (negb allowed); [discriminate|].
   destruct (x_bv (d_x d) && negb (p_bv p))%bool; [discriminate|]. rewrite Hv in H. inversion H; subst; clear H.
   apply (redesc_inv st d); simpl; auto.
 Qed.
